@@ -308,6 +308,9 @@ func (na *nilAnalysis) Findings() (findings []NilFinding, examined int) {
 						}
 					}
 					reg := na.keyReg(fn, key, use)
+					if reg && na.strictMap && na.forMap != nil && na.isSecondSnapshot(fn, na.forMap, 0) && !na.keyInMap(fn, key, use, na.forMap) {
+						reg = false // the health-record map is read after the state map: a registry-derived name need not be in it
+					}
 					na.forMap = nil
 					if reg {
 						continue
@@ -668,4 +671,118 @@ func sameMap(p *Prog, a, b *Term) bool {
 		return true
 	}
 	return a.Op == "param" && b.Op == "param" && a.Name == b.Name && a.V == b.V
+}
+
+// keyInMap (strict reading): the key is known to be a key of THIS map — it is a range key of it, or a presence test on
+// this very map (or a map it was copied from within the function) dominates the use. Being registry-derived is not
+// enough: each state map is its own snapshot of a registry that other goroutines refresh.
+func (na *nilAnalysis) keyInMap(fn *ssa.Function, k ssa.Value, at ssa.Instruction, m ssa.Value) bool {
+	p := na.p
+	kt, mt := p.T(k), p.T(m)
+	for _, a := range kt.Alts() {
+		if a.Op == "rangekey" && len(a.Args) == 1 && sameMap(p, a.Args[0], mt) {
+			return true
+		}
+	}
+	sameKey := func(t *Term) bool { return sameValue(t, kt) || (cellOf(t) != nil && cellOf(t) == cellOf(kt)) }
+	guard := func(l Lit) bool {
+		lk := l.T
+		if l.Pos && lk.Op == "extract" && lk.Name == "1" && len(lk.Args) == 1 && lk.Args[0].Op == "lookup" {
+			return sameKey(lk.Args[0].Args[1]) && sameMap(p, lk.Args[0].Args[0], mt)
+		}
+		if lk.Op == "isnil" && !l.Pos {
+			x := lk.Args[0]
+			if x.Op == "extract" && x.Name == "0" && len(x.Args) == 1 {
+				x = x.Args[0]
+			}
+			if x.Op == "lookup" {
+				return sameKey(x.Args[1]) && sameMap(p, x.Args[0], mt)
+			}
+		}
+		return false
+	}
+	ok, _ := p.FA(fn).Gated(at, guard)
+	if ok {
+		return true
+	}
+	// parameters: the map and the key are both parameters and every call site passes a (map, key) pair that is in step —
+	// decided at the call sites by the same rule (one level)
+	kp, kok := k.(*ssa.Parameter)
+	mp, mok := m.(*ssa.Parameter)
+	if !kok || !mok {
+		return false
+	}
+	ki, mi := -1, -1
+	for i, pa := range fn.Params {
+		if pa == kp {
+			ki = i
+		}
+		if pa == mp {
+			mi = i
+		}
+	}
+	sites := na.callSites[fn]
+	if ki < 0 || mi < 0 || len(sites) == 0 {
+		return false
+	}
+	for _, cs := range sites {
+		if ki >= len(cs.Args) || mi >= len(cs.Args) || cs.Args[ki] == nil || cs.Args[mi] == nil || cs.ElemOf[ki] {
+			return false
+		}
+		if !na.keyInMapDepth(cs.Caller, cs.Args[ki], cs.At, cs.Args[mi], 1) {
+			return false
+		}
+	}
+	return true
+}
+
+func (na *nilAnalysis) keyInMapDepth(fn *ssa.Function, k ssa.Value, at ssa.Instruction, m ssa.Value, d int) bool {
+	if d > 3 {
+		return false
+	}
+	return na.keyInMap(fn, k, at, m)
+}
+
+// isSecondSnapshot: the map is (on every path / at every call site) the result of getClusterStateFromDcs — the snapshot
+// taken after the state map of the same iteration.
+func (na *nilAnalysis) isSecondSnapshot(fn *ssa.Function, m ssa.Value, d int) bool {
+	p := na.p
+	if d > 4 {
+		return false
+	}
+	t := p.T(m)
+	alts := t.Alts()
+	if len(alts) == 0 {
+		return false
+	}
+	for _, a := range alts {
+		if r := ResultOf(a, 0); r != nil && p.IsCall(r, "(*app.App).getClusterStateFromDcs") {
+			continue
+		}
+		if a.Op == "param" {
+			pa, ok := a.V.(*ssa.Parameter)
+			if !ok {
+				return false
+			}
+			f := pa.Parent()
+			idx := -1
+			for i, q := range f.Params {
+				if q == pa {
+					idx = i
+				}
+			}
+			sites := na.callSites[f]
+			if idx < 0 || len(sites) == 0 {
+				return false
+			}
+			for _, cs := range sites {
+				if idx >= len(cs.Args) || cs.Args[idx] == nil || !na.isSecondSnapshot(cs.Caller, cs.Args[idx], d+1) {
+					return false
+				}
+			}
+			continue
+		}
+		return false
+	}
+	return true
 }
